@@ -16,10 +16,13 @@ import (
 
 // The alphabet: everything the hand-written scanner or the generated lexer treats specially, plus
 // ordinary, non-ASCII and non-BMP characters.
-var alphabet = []rune{'"', '\\', '(', ')', '@', 'a', ' ', '\n', 'é', 0x1F600, '.'}
+// The ordinary letter is n, so that backslash + letter is also a well-known escape sequence.
+// Newline stands for whitespace (it is whitespace to the lexer and an ordinary character to the scanner);
+// U+0001 is a control character that strconv.Quote writes as a hex escape.
+var alphabet = []rune{'"', '\\', '(', ')', '@', 'n', 0x01, '\n', 'é', 0x1F600, '.'}
 
 const (
-	valA  = "<A>" // rendering of @a
+	valA  = "<A>" // rendering of @n
 	valAA = "<AA>"
 )
 
@@ -39,15 +42,15 @@ var (
 	})
 	objA = types.NewXObject(map[string]types.XValue{
 		"__default__": types.NewXText(valA),
-		"a": types.NewXObject(map[string]types.XValue{
+		"n": types.NewXObject(map[string]types.XValue{
 			"__default__": types.NewXText(valAA),
-			"a":           types.NewXText("<A3>"),
+			"n":           types.NewXText("<A3>"),
 			"é":           types.NewXText("<E3>"),
 		}),
 		"é": types.NewXText("<E1>"),
 	})
-	baseCtx = types.NewXObject(map[string]types.XValue{"a": objA, "f": fn})
-	allowed = map[string]bool{"a": true, "f": true}
+	baseCtx = types.NewXObject(map[string]types.XValue{"n": objA, "f": fn})
+	allowed = map[string]bool{"n": true, "f": true}
 )
 
 func isNameChar(ch rune) bool { return unicode.IsLetter(ch) || unicode.IsNumber(ch) || ch == '_' }
@@ -170,7 +173,7 @@ type scanTok struct {
 
 func scan(t string) []scanTok {
 	var out []scanTok
-	excellent.VisitTemplate(t, []string{"a", "f", "o"}, true, func(tt excellent.XTokenType, tok string) error {
+	excellent.VisitTemplate(t, []string{"n", "f", "o"}, true, func(tt excellent.XTokenType, tok string) error {
 		out = append(out, scanTok{tt, tok})
 		return nil
 	})
@@ -254,8 +257,8 @@ var forms = []form{
 	{"x @(Q) y", false, func(q, _, s, _ string) (string, string, []scanTok) {
 		return "x @(" + q + ") y", "x " + s + " y", []scanTok{b("x "), x(q), b(" y")}
 	}},
-	{"@a@(Q)@a", false, func(q, _, s, _ string) (string, string, []scanTok) {
-		return "@a@(" + q + ")@a", valA + s + valA, []scanTok{id("a"), x(q), id("a")}
+	{"@n@(Q)@n", false, func(q, _, s, _ string) (string, string, []scanTok) {
+		return "@n@(" + q + ")@n", valA + s + valA, []scanTok{id("n"), x(q), id("n")}
 	}},
 	{"@(Q)@(Q)", false, func(q, _, s, _ string) (string, string, []scanTok) {
 		return "@(" + q + ")@(" + q + ")", s + s, []scanTok{x(q), x(q)}
@@ -293,7 +296,7 @@ func ctxFor(f *form, s string) *types.XObject {
 	if f.name != "@(o[Q])" {
 		return baseCtx
 	}
-	return types.NewXObject(map[string]types.XValue{"a": objA, "f": fn, "o": types.NewXObject(map[string]types.XValue{s: types.NewXText("<V>")})})
+	return types.NewXObject(map[string]types.XValue{"n": objA, "f": fn, "o": types.NewXObject(map[string]types.XValue{s: types.NewXText("<V>")})})
 }
 
 // checkLiteral checks that the string value s (and t for the pair forms), written as a quoted,
